@@ -154,6 +154,9 @@ def fmt_program(header, blocks, edges, opts=(), extra=()):
 
 
 CORPUS = [
+    # analysis started at a block inside a loop / at the head of a nested loop (fixed defect, engine-4)
+    "cfg 4 1 3 delay=1 desc=1 entry=2 | B 0 assign 0 E 0 5 | B 1 | B 2 arith add 0 0 k 1 | B 3 | E 0 1 1 2 2 1 1 3 | I C eq E 1 1 0 0",
+    "cfg 5 1 4 delay=1 desc=1 entry=2 | B 0 assign 0 E 0 5 | B 1 | B 2 arith add 0 0 k 1 | B 3 | B 4 | E 0 1 1 2 2 3 3 2 3 1 1 4 | I C eq E 1 1 0 0",
     # analysis entry is a loop head (fixed defect)
     "cfg 3 1 2 delay=2 desc=1 | B 0 | B 1 arith add 0 0 k 1 | B 2 | E 0 1 1 0 0 2 | I C eq E 1 1 0 0",
     "cfg 3 1 2 delay=1 desc=0 | B 0 | B 1 arith add 0 0 k 1 | B 2 | E 0 1 1 0 0 2 | I C eq E 1 1 0 0",
@@ -179,6 +182,19 @@ def gen(seed, tier, n=None, opts=None, params=True):
             po.append(kv)
         if na:
             po.append(("nasserts", na))
+        if params and o.get("alt_entry", True) and rng.random() < 0.25:
+            # alternative entry block: any block reachable from the CFG entry (= in the WTO),
+            # also inside loops and loop heads
+            succ = {}
+            for a, b in edges:
+                succ.setdefault(a, []).append(b)
+            reach = {0}; work = [0]
+            while work:
+                v = work.pop()
+                for x in succ.get(v, []):
+                    if x not in reach:
+                        reach.add(x); work.append(x)
+            po.append(("entry", rng.choice(sorted(reach))))
         extra = []
         if rng.random() < 0.3:
             nv = int(header.split()[2])
